@@ -106,3 +106,25 @@ def parse_norm_mem(op):
             return None
         out["k"] = rest[0]
     return out
+
+
+def present_addresses(draw, L, allow_restart=True):
+    """Address columns as objdump prints them for other kinds of input: zero padded to a fixed width (raw-binary and object
+    dumps: `00:`, `04:`; 8 or 16 digit columns), and - for relocatable objects, where every section starts at 0 again -
+    restarting in the middle of the listing, so that an address occurs twice.  Modifies L in place; -> tags."""
+    from hypothesis import strategies as st
+
+    tags = []
+    if len(L) >= 2 and allow_restart and draw(st.integers(0, 5)) == 0:
+        k = draw(st.integers(1, len(L) - 1))
+        base = int(L[0][0], 16)
+        delta = int(L[k][0], 16) - base
+        for rec in L[k:]:
+            rec[0] = format(int(rec[0], 16) - delta, "x")
+        tags.append("addresses-restart")
+    if draw(st.integers(0, 5)) == 0:
+        w = draw(st.sampled_from([2, 4, 8, 16]))
+        for rec in L:
+            rec[0] = rec[0].zfill(w)
+        tags.append("addresses-zero-padded")
+    return tags
